@@ -646,6 +646,7 @@ pub fn send_to_gui(message: &str) {
 
     ("C15", "placement-longer-than-64-rejected", BD, "        let fen_rows: Vec<&str> = fen_config[0].split('/').collect();", "        if fen_config[0].len() > 64 {\n            return Err(\"Could not parse fen string: Piece placement is too long\");\n        }\n        let fen_rows: Vec<&str> = fen_config[0].split('/').collect();", "R15.7", "64 squares but up to 71 characters: fragmented legal positions are refused"),
     ("C11", "revert-fix13-pv-by-squares-only", EN, "                if mov.last_move == b.last_move && mov.pawn_promotion == b.pawn_promotion {", "                if mov.last_move == b.last_move {", "R11.7", "previous best root move re-identified by (from, to) only: an under-promotion that mates is replaced by the queen promotion at the start of the next pass"),
+    ("C11", "revert-fix14-no-drain", UC, "    while let Ok(b) = rx.try_recv() {\n        best_move = Some(b);\n    }\n", "", "R11.8", "wait loop left on 'deadline passed and a move in hand': queued newer moves are not played"),
 ]
 
 # Behaviour-preserving refactors: every check must stay SILENT on these (false-alarm controls).
